@@ -273,6 +273,61 @@ pub fn run(ctx: &Ctx) {
         }
         let _ = &pts;
     });
+    // ---- through the real binary: near-miss passwords must be rejected, exact ones accepted ----
+    {
+        use crate::cli::{Cmd, Exit, Stdin, WorkDir};
+        let wd = WorkDir::new("c02");
+        let pws: Vec<String> = vec!["correct horse".into(), "pw ".into(), " pw".into(), "tab\tend\t".into(), "\u{30d1}\u{30b9}\u{3000}".into(), "line\n".into(), "".into(), " ".into(), "UPPER".into()];
+        let pt = Rng::fork(ctx.seed, "C02-cli").bytes(70_000);
+        let wdp = &wd;
+        par_for(pws.len(), crate::util::ncpu(), |i| {
+            let w = &pws[i];
+            let o = Cmd::new(&wdp.path, &["password", "encrypt", "--env-pass"]).pass(w).stdin(Stdin::Bytes(pt.clone())).run();
+            ctx.eval();
+            if o.exit != Exit::Code(0) {
+                ctx.violation("C02:cli:password-encrypt-failed", json!({"password": w, "exit": o.exit.describe(), "stderr": o.stderr_s()}));
+                return;
+            }
+            // the file must be keyed by exactly the password bytes given (reference decode)
+            match refspec::decode_pass_file(&o.stdout, w.as_bytes()) {
+                Ok(d) if d.body.complete() && d.body.plaintext() == pt => {}
+                _ => {
+                    ctx.violation("C02:cli:file-is-not-keyed-by-the-exact-password-given", json!({"password": w, "password_hex": hex(w.as_bytes())}));
+                    return;
+                }
+            }
+            let f = wdp.write(&format!("f{}.ktl", i), &o.stdout);
+            let mut variants: Vec<String> = vec![format!("{} ", w), format!("{}\n", w), format!("{}\t", w), format!("{}\u{3000}", w), format!(" {}", w), w.trim_end().to_string(), w.trim().to_string(), w.to_uppercase(), w.to_lowercase(), format!("{}\r\n", w)];
+            variants.retain(|v| v != w);
+            variants.dedup();
+            for v in variants {
+                let outp = wdp.file(&format!("o{}.bin", i));
+                let _ = std::fs::remove_file(&outp);
+                let d = Cmd::new(&wdp.path, &["password", "decrypt", f.to_str().unwrap(), "-o", outp.to_str().unwrap(), "--env-pass"]).pass(&v).run();
+                ctx.eval();
+                let case = || json!({"password": w, "password_hex": hex(w.as_bytes()), "other_password_hex": hex(v.as_bytes()), "exit": d.exit.describe(), "stderr": d.stderr_s(), "output_created": outp.exists()});
+                match &d.exit {
+                    Exit::Code(1) if !outp.exists() => {
+                        ctx.seen("cli: near-miss password rejected, nothing written");
+                        ctx.distinct(&format!("cli-near|{}|{}", i, hex(v.as_bytes())));
+                    }
+                    Exit::Code(0) => ctx.violation("C02:cli:different-password-accepted", case()),
+                    Exit::Code(1) => ctx.violation("C02:cli:different-password-released-output", case()),
+                    Exit::Timeout => ctx.inconclusive("C02 cli: timeout"),
+                    other => ctx.violation(&format!("C02:cli:abnormal-termination:{}", other.describe()), case()),
+                }
+            }
+            // and the exact password works
+            let d = Cmd::new(&wdp.path, &["password", "decrypt", f.to_str().unwrap(), "--env-pass"]).pass(w).run();
+            ctx.eval();
+            if d.exit == Exit::Code(0) && d.stdout == pt {
+                ctx.seen("cli: exact password accepted");
+            } else {
+                ctx.violation("C02:cli:exact-password-rejected", json!({"password": w, "exit": d.exit.describe(), "stderr": d.stderr_s()}));
+            }
+        });
+    }
+    ctx.require("cli: near-miss password rejected", 30);
     ctx.require("prod: chunks=", 20);
     ctx.require("wrong password -> ", 50);
 }
